@@ -4,16 +4,23 @@ C01 — generated result types admit every spec-conformant response.
 Objects: `Exec` (Spec/Exec.lean: responses of spec execution), `implTree`/`toTs` (Model/OpTypes.lean: the printer),
 `Mem` (Lemmas/TsSem.lean over Ts/Sem.lean + Ts/SelSem.lean: the values a TypeScript type admits — trusted reading).
 
-Proved here: the specification-side facts the refinement rests on (`exec_sub_refLocal`, soundness of the executable
-decider the O stream uses), the branch-enumeration lemma (`branches_cover`), and the kernel-checked witnesses of
-the two defects of the pinned code that made C01 false (`merge_by_typename_counterexample` — §9-a, repaired in
-/repo 0bbdfa6 — and `alias_named_typename_counterexample` — §9-c, repaired in 72cec20), each paired with the proof that
-the repaired model admits the response.  The full refinement statement is kept visible in the block
-"OPEN — carried by K/O only" at the end.
+Proved here: THE REFINEMENT THEOREM `impl_eq_refLocal` (the type emitted for a selection set denotes exactly `RefLocal`;
+`C01_admits_every_response` is its ⊆ direction composed with `exec_sub_refLocal`, Props/C02.lean takes the ⊇ direction),
+`impl_no_panic`, the decidable sufficient check for the coherence hypothesis (`coherence_check_sufficient`), the
+specification-side facts (`exec_sub_refLocal`, soundness of the executable decider the O stream uses), the branch-enumeration
+lemma (`branches_cover`), the denotation of the printed type (`toTs_denotation`), and kernel-checked witnesses: the two
+defects of the pinned code that made C01 false (`merge_by_typename_counterexample` — §9-a, repaired in /repo 0bbdfa6 — and
+`alias_named_typename_counterexample` — §9-c, repaired in 72cec20), each paired with the proof that the repaired model
+admits the response, and `alias_equals_key_counterexample` (the statement is false outside the theorem's side condition on
+aliases — also of the real code).  What K/O still carry is listed in the block at the end.
 -/
 import NitroVerif.Lemmas.OpTypes
 import NitroVerif.Lemmas.OpTypesDen
 import NitroVerif.Lemmas.TsSemSound
+import NitroVerif.Lemmas.OpTypesRefWitness
+import NitroVerif.Lemmas.OpTypesRefCex
+import NitroVerif.Lemmas.OpTypesRefCheck
+import NitroVerif.Lemmas.OpTypesRefNoPanicE
 namespace NitroVerif.Props.C01
 open NitroVerif.Gql NitroVerif.Ts NitroVerif.OpTypes NitroVerif.OpTypes.W NitroVerif.Exec
 
@@ -224,26 +231,175 @@ theorem alias_named_typename_counterexample :
   · rw [mem_strLit_iff]; intro h; injection h with h; exact absurd h (by decide)
   · apply memG_sound 4; decide +kernel
 
-/-
-OPEN — carried by K/O only (stated at full strength; not proved in budget)
+/-! ### THE REFINEMENT THEOREM: the emitted type denotes exactly `RefLocal` -/
 
-  -- the emitted type denotes exactly RefLocal (C01 ⊆, C02 ⊇), for every valid schema, spec-valid document and
-  -- operation/fragment X; `decls S cfg` = the schema declaration file (C10's model), `fuelFor`/`mfuelFor` as in the model
-  theorem impl_eq_refLocal (hS : SchemaValid S) (hD : SpecValid S D) (hX : X ∈ D) :
-      implTree S (fragsOf D) (mfuelFor D) (fuelFor D) (rootOf X) X.sel = .ok t →
-      (Mem (envOf S cfg) v (close (toTs ns t)) ↔ ∃ o ∈ S.possibleTypes (rootOf X).unwrapped, RefLocal c o X.sel v)
-  theorem impl_no_panic (hS) (hD) : ∃ t, implTree … = .ok t
-  theorem C01_admits_every_response : Exec c σ o X.sel v → Mem … v (close (toTs ns t))
-  -- proof plan (DESIGN §4): (i) `fieldsFor` under branch (o, β) lists per response key the fields `collectFields o ss β`
-  -- groups (skipped ones as `empty`); (ii) `branches_cover` (proved above) + `parentObjects = possibleTypes`;
-  -- (iii) `deepMerge` denotes the merged selection set — TRUE of the repaired merge (pairs by type and assignment),
-  -- false of the pinned one (`merge_by_typename_counterexample`); (iv) `toTs` is denotation-preserving.
-  -- PROVED of this plan: (iv) completely (`toTs_denotation`, `toTs_closed`, `toTs_denotation_emitted`, leaf part
-  -- `leafTs_exact`); of (i) the two local tests (`checkSkip_agrees_with_spec`, `fragmentApplies_agrees_with_spec`);
-  -- (ii) `branches_cover`, `parentObjects_possibleTypes`.  STILL OPEN: (i) for whole selection sets (the field lists
-  -- of `fieldsFor` vs the groups of `collectFields`, through fragments), (iii) the merge lemma, `impl_no_panic`.
-  What carries these statements today: K (model = code, tree against tree on the real emitted text) and O
-  (`oracle.c01`: every enumerated Exec response is a member of the REAL emitted type; 0 failures after the repairs).
+open NitroVerif.OpTypes.Ref in
+/-- **`impl_eq_refLocal`.** Whenever the printer model returns a tree `T` for the selection set `ss` at the GraphQL type
+    `ty`, the TypeScript type printed for `T` admits EXACTLY the values CompleteValue allows for `ty` when nested objects
+    are responses of `RefLocal` (spec execution with the Boolean variables re-chosen per selection set): `null` iff
+    nullable, lists element-wise, and at the object position the `RefLocal` responses of `ss` on some possible runtime
+    object type.  Hypotheses (all about the INPUT, none about the model's run):
+    `H` — the schema declaration file declares, for every object type, `__typename` and exactly its fields, a leaf type's
+    declaration admits exactly the leaf's values and never `null` (C09/C10's subject), `__SelectionSet` has the prelude's
+    reading, every composite type has a possible object type; `hnd` — type names are unique; `hC` — the document is
+    coherent at every depth (occurrences collected under one response key for one object type agree on field name /
+    having a sub-selection — FieldsInSetCanMerge —, a field without sub-selection has a leaf type — Leaf Field Selections —,
+    and no alias coincides with an unaliased response key of the same set); `hf` — the fuel of the executable
+    specification suffices (`FuelOk`: no fragment cycle within depth `D`, expanded size ≤ `c.fuel`); `hv` — the value has
+    no repeated record keys (needed for ⊇ only).  Proof: fields (i) `fieldsFor` lists exactly the collected occurrences,
+    (ii) branch cover, (iii) the merge lemma `mergeTrees_rel`, (iv) `toTs_denotation`, by induction on the model's fuel
+    and on the tree. -/
+theorem impl_eq_refLocal {c : Ctx} {e : Env} {r : Refs} {orig : Name → Option (List Field)} (H : Hyp c e r orig)
+    (hnd : TypeNamesNodup c.S) {mfuel fuel D : Nat} {ty : GType} {ss : List Selection} {T : SelTree}
+    (h : implTree c.S c.F mfuel fuel ty ss = .ok T) (hC : ∀ d, Coh c d (Sb1 ss) ty.unwrapped)
+    (hf : FuelOk c D ss) (v : J) (hv : JWf v) :
+    Mem e v (treeTs r T false) ↔ CompP c (RefLocal c) ss ty false v :=
+  ⟨(impl_denotes H hnd h hC).2 D hf v hv, (impl_denotes H hnd h hC).1 v⟩
+
+open NitroVerif.OpTypes.Ref in
+/-- the refinement theorem at the root of an operation / fragment (`ty` = the non-null root or type-condition type):
+    the emitted type admits exactly the `RefLocal` responses of the selection set on the possible object types -/
+theorem impl_eq_refLocal_root {c : Ctx} {e : Env} {r : Refs} {orig : Name → Option (List Field)} (H : Hyp c e r orig)
+    (hnd : TypeNamesNodup c.S) {mfuel fuel D : Nat} {root : Name} {p : Pos} {ss : List Selection} {T : SelTree}
+    (h : implTree c.S c.F mfuel fuel (.nonNull (.named root p)) ss = .ok T) (hC : ∀ d, Coh c d (Sb1 ss) root)
+    (hf : FuelOk c D ss) (v : J) (hv : JWf v) :
+    Mem e v (treeTs r T false) ↔ ∃ o ∈ c.S.possibleTypes root, RefLocal c o ss v := by
+  rw [impl_eq_refLocal H hnd h hC hf v hv]
+  exact compP_root (implTree_root_composite h) (fun _ _ _ => refLocal_not_null)
+
+open NitroVerif.OpTypes.Ref in
+/-- … and for the type as EMITTED: printed with `NS.…` references and closed against the declaration table `d` of the
+    operation file linked with the schema declaration file (`toTs_closed`), read with the real `__SelectionSet` hook -/
+theorem impl_eq_refLocal_emitted {c : Ctx} (d : Decls) (ns : String) {orig : Name → Option (List Field)}
+    (H : Hyp c { decls := d, appHook := SelSem.hook } ((Refs.ofNs ns).close d) orig)
+    (hnd : TypeNamesNodup c.S) {mfuel fuel D : Nat} {root : Name} {p : Pos} {ss : List Selection} {T : SelTree}
+    (h : implTree c.S c.F mfuel fuel (.nonNull (.named root p)) ss = .ok T) (hC : ∀ d, Coh c d (Sb1 ss) root)
+    (hf : FuelOk c D ss) (v : J) (hv : JWf v) :
+    Mem { decls := d, appHook := SelSem.hook } v (globalise d [] [] (toTs ns T)) ↔
+      ∃ o ∈ c.S.possibleTypes root, RefLocal c o ss v := by
+  rw [toTs_closed]
+  exact impl_eq_refLocal_root H hnd h hC hf v hv
+
+open NitroVerif.OpTypes.Ref in
+/-- **C01.** Every response of a spec-conformant execution (`Exec`: any σ, any resolver results, any nullable position
+    null, any list length) of the selection set on a possible object type of the root is a member of the emitted type.
+    (The ⊆ direction: no hypothesis on the specification's fuel or on the value.) -/
+theorem C01_admits_every_response {c : Ctx} {e : Env} {r : Refs} {orig : Name → Option (List Field)} (H : Hyp c e r orig)
+    (hnd : TypeNamesNodup c.S) {mfuel fuel : Nat} {root : Name} {p : Pos} {ss : List Selection} {T : SelTree}
+    (h : implTree c.S c.F mfuel fuel (.nonNull (.named root p)) ss = .ok T) (hC : ∀ d, Coh c d (Sb1 ss) root)
+    {σ : Sigma} {o : Name} (ho : o ∈ c.S.possibleTypes root) {v : J} (hx : Exec c σ o ss v) :
+    Mem e v (treeTs r T false) := by
+  refine (impl_denotes H hnd h hC).1 v ?_
+  exact (compP_root (implTree_root_composite h) (fun _ _ _ => refLocal_not_null)).2
+    ⟨o, ho, exec_sub_refLocal c σ o ss v hx⟩
+
+set_option maxRecDepth 16384 in
+open NitroVerif.OpTypes.Ref in
+/-- the hypotheses are satisfiable by a non-trivial input: the witness schema with its declaration file, and the document
+    `{ a { x } a { y @skip(if: $v) } }` (two object fields merged under one key, a Boolean variable) — the model returns a
+    tree, and the theorem yields membership of the v = true response -/
+example : Hyp W.ctx W.env Ref.W.r Ref.W.orig ∧ TypeNamesNodup W.ctx.S ∧
+    (∃ T, implTree W.ctx.S W.ctx.F 16 16 (.nonNull (.named "Query" {})) W.selA = .ok T ∧
+      Mem W.env (.obj [("a", respX)]) (treeTs Ref.W.r T false)) ∧
+    (∀ d, Coh W.ctx d (Sb1 W.selA) "Query") ∧ FuelOk W.ctx 4 W.selA ∧ JWf (.obj [("a", respX)]) := by
+  refine ⟨Ref.W.hyp, Ref.W.typeNamesNodup, ⟨_, rfl, ?_⟩, Ref.W.coh_selA, Ref.W.fuelOk_selA, ?_⟩
+  · exact C01_admits_every_response Ref.W.hyp Ref.W.typeNamesNodup (mfuel := 16) (fuel := 16) (root := "Query")
+      (p := {}) rfl Ref.W.coh_selA
+      (σ := sigmaOf [("v", true)]) (o := "Query") (by decide)
+      ⟨3, execMem_sound _ _ 3 _ _ _ (by decide +kernel)⟩
+  · simp [JWf, JWfFields, respX]
+
+open NitroVerif.OpTypes.Ref in
+/-- **The coherence hypothesis is decidable in practice**: the executable check `cohB` (for every possible object type:
+    occurrences listed when nothing is skipped agree pairwise per response key on aliased / field name / having a
+    sub-selection, fields without sub-selection have leaf types, recursively for the sub-selections grouped by response
+    key, down to the depth at which no selection is left) implies `∀ d, Coh c d {ss} n` for selection sets without fragment
+    cycles (`fits`).  Together with `FuelOk` (a conjunction of two decidable facts) and `TypeNamesNodup`, all hypotheses of
+    `impl_eq_refLocal` about the DOCUMENT are decidable; `Hyp` speaks about the schema declaration file. -/
+theorem coherence_check_sufficient (c : Ctx) (D d : Nat) (ss : List Selection) (n : Name)
+    (hfit : ss.all (fits c.F D) = true) (h : cohB c.S c.F D d [ss] n = true) : ∀ d', Coh c d' (Sb1 ss) n :=
+  coh_of_cohB c D d ss n (fun s hs => List.all_eq_true.1 hfit s hs) h
+
+open NitroVerif.OpTypes.Ref in
+/-- the check succeeds on the witness document -/
+example : W.selA.all (fits W.ctx.F 4) = true ∧ cohB W.ctx.S W.ctx.F 4 4 [W.selA] "Query" = true := by decide
+
+/-! ### why the side condition on aliases is there: the statement is FALSE without it -/
+
+open NitroVerif.OpTypes.Ref in
+/-- **Counterexample to C01 (model and real code) outside the side condition.** The spec-valid document
+    `query($v: Boolean!) { a: a @skip(if: $v) { x }  a { y } }` — an alias that coincides with an unaliased response key of
+    the same selection set: the printer puts the aliased field into `Others` and the unaliased one into `Obj` of one
+    `__SelectionSet`, so their sub-selections are never merged.  The emitted type is
+    `__SelectionSet<Query, {a: {y}|null}, {a: {x}|null}> | __SelectionSet<Query, {a: {y}|null}, {a?: never}>`; the response
+    `{ a: { y: "s" } }` that every spec-conformant server returns for v = true is NOT a member of it (the key `a` is typed
+    by an intersection with `never`, resp. with `{x} | null`).  The document violates the coherence hypothesis `hC` of
+    `impl_eq_refLocal` (last conjunct), which is exactly why that hypothesis contains "aliased = aliased". -/
+theorem alias_equals_key_counterexample :
+    Exec W.ctx (sigmaOf [("v", true)]) "Query" Cex.selAA Cex.resp ∧
+    ((implTree W.S W.noFrags 16 16 (.nonNull (.named "Query" {})) Cex.selAA).toOption.map
+      fun t => W.close (toTs "Schema" t)) = some Cex.ty ∧
+    ¬ Mem W.env Cex.resp Cex.ty ∧
+    ¬ (∀ d, Coh W.ctx d (Sb1 Cex.selAA) "Query") := by
+  refine ⟨⟨3, execMem_sound _ _ 3 _ _ _ (by decide +kernel)⟩, Cex.tree_ty, Cex.resp_not_mem, ?_⟩
+  intro h
+  have h1 := h 1
+  simp only [Coh] at h1
+  obtain ⟨⟨hc, _⟩, _⟩ := h1 "Query" (by decide)
+  have := (hc ⟨"a", true, "a", some W.selX⟩ ⟨"a", false, "a", some Cex.selY⟩
+    (pu_sb1.2 (.field rfl)) (pu_sb1.2 (.tail (.field rfl))) rfl).1
+  cases this
+
+/-! ### the printer does not panic -/
+
+open NitroVerif.OpTypes.Ref in
+/-- **`impl_no_panic`.** The model of `get_type_for_selection_set` returns a tree — no `expect`/`panic!` site is reached
+    ("Type system error", "Cannot merge fields of different types", "Cannot merge selection trees of different types")
+    and neither fuel of the model runs out — for every selection set that passes these DECIDABLE checks:
+    type names unique; `selOkB`: for every possible object type of the parent, every (applicable) selection is well formed
+    (`@skip`/`@include` carry an `if` argument, a field exists on the object type or is `__typename`, the type of a field
+    with a sub-selection is a composite type with defined members and the sub-selection is valid for its possible object
+    types, spreads and type conditions are defined); `fitsS`: no fragment cycle within nesting depth `D`; `cohB`: the
+    coherence check (FieldsInSetCanMerge + Leaf Field Selections + no alias equal to an unaliased key);
+    fuels: `fuel ≥ 2·D + 2`, `mfuel ≥` the expanded size of the selection set and `≥ (K + 1)·(G + 1)` where `D ≤ K` and
+    `G` bounds the list/non-null wrapper depth of the schema's field types. -/
+theorem impl_no_panic (c : Ctx) (mfuel fuel G K D d : Nat) (ty : GType) (ss : List Selection)
+    (hnd : TypeNamesNodup c.S) (hG : fieldDepthB c.S G = true) (hmf : (K + 1) * (G + 1) ≤ mfuel) (hDK : D ≤ K)
+    (hfuel : 2 * D + 2 ≤ fuel) (hpar : parentsOkB c.S ty.unwrapped = true)
+    (hsel : (c.S.possibleTypes ty.unwrapped).all (fun o => ss.all (selOkB c.S c.F D o)) = true)
+    (hfit : ss.all (fitsS c.F D) = true) (hesz : eszL c.F D ss ≤ mfuel)
+    (hcoh : cohB c.S c.F D d [ss] ty.unwrapped = true) :
+    ∃ T, implTree c.S c.F mfuel fuel ty ss = .ok T := by
+  have hfit' : ∀ s ∈ ss, fitsS c.F D s = true := fun s hs => List.all_eq_true.1 hfit s hs
+  refine implTree_ok ⟨hnd, fieldDepth_of_check hG, hmf⟩ hDK hfuel hpar ?_ hfit' hesz ?_
+  · intro o ho s hs
+    exact List.all_eq_true.1 (List.all_eq_true.1 hsel o ho) s hs
+  · exact coh_of_cohB c D d ss _ (fun s hs => fitsS_fits D s (hfit' s hs)) hcoh
+
+open NitroVerif.OpTypes.Ref in
+/-- the checks succeed on the witness document `{ a { x } a { y @skip(if: $v) } }` (fuels 16/16, `G` = 1, `K` = `D` = 4) -/
+example : fieldDepthB W.ctx.S 1 = true ∧ parentsOkB W.ctx.S "Query" = true ∧
+    (W.ctx.S.possibleTypes "Query").all (fun o => W.selA.all (selOkB W.ctx.S W.ctx.F 4 o)) = true ∧
+    W.selA.all (fitsS W.ctx.F 4) = true ∧ eszL W.ctx.F 4 W.selA ≤ 16 ∧ cohB W.ctx.S W.ctx.F 4 4 [W.selA] "Query" = true := by
+  decide
+
+/-
+OPEN — carried by K/O only (nothing of the refinement statement itself)
+
+  * that the Lean model IS the code (K: tree against tree on the real emitted text, panics included);
+  * that the hand-written reading of the emitted TypeScript (Ts/Sem.lean, Ts/SelSem.lean) is TypeScript's;
+  * the hypotheses `Hyp` about the REAL schema declaration file (C10's model: every object type's declaration lists
+    `__typename` and exactly its fields, a leaf type's declaration admits exactly the leaf's values) — the O stream tests
+    membership against the real emitted files;
+  * `impl_no_panic` for whole documents with the fuels the model is run with (`fuelFor`, `mfuelFor`): the theorem above is
+    per selection set and per (fuel, mfuel).  Its fuel hypotheses are sufficient, not necessary: `eszL` counts the body
+    of a fragment once per spread, the code's walks enter it once; that `2·docSize + 4` / `docSize + 64` always suffice on
+    valid documents (`D ≤ docSize + 1`, a walk of at most `docSize` steps, `(K + 1)·(G + 1) ≤ docSize + 64` — the last
+    one is NOT true of schemas with very deep list types) is not proved; K never met `outOfFuel`.
+  * outside the side conditions the statement is FALSE (`alias_equals_key_counterexample`: an alias equal to an unaliased
+    response key of the same selection set — model AND real code; for ⊇: values with a repeated record key
+    (`C02.repeated_key_counterexample`); not kernel-checked: an interface without implementing object type, whose member type
+    `never` the reading of `__SelectionSet` turns into "key absent") — see design-notes/C01.md "Wave 3".
 -/
 
 end NitroVerif.Props.C01
